@@ -40,17 +40,23 @@ def concrete_model(p, cse, env):
     return {s: float(out.data[ss.index(s), 0]) for s in p.state}
 
 
-def concrete_model_sequence(p, cse, envs):
-    """Real code in floats: ONE compiled model, evaluated at each env in turn."""
+def concrete_model_sequence(p, cse, envs, hold_first=False):
+    """Real code in floats: ONE compiled model, evaluated at each env in turn.
+    hold_first: return the FIRST call's State object read *after* the later calls (aliasing)."""
     from formak import python
 
     outs = []
+    first = None
     with quiet():
         pm = python.compile(_ui(p), pyh.float_calibration_map(p, envs[0]), config=pyh.py_config(cse))
         ss = p.s_state()
         for env in envs:
             out = pm.model(float(env[p.dt]), pm.State(**{s: float(env[s]) for s in p.state}), pm.Control(**{c: float(env[c]) for c in p.control}))
+            if first is None:
+                first = out
             outs.append({s: float(out.data[ss.index(s), 0]) for s in p.state})
+    if hold_first:
+        return {s: float(first.data[ss.index(s), 0]) for s in p.state}
     return outs
 
 
@@ -89,16 +95,33 @@ def task(pd, cse, tier, seed):
         with installed(), quiet():
             pm = python.compile(_ui(p), pyh.sym_calibration_map(p, env), config=pyh.py_config(cse))
             out = pm.model(SymReal(env[p.dt]), pm.State(**pyh.sym_state_kwargs(p.state, env)), pm.Control(**pyh.sym_state_kwargs(p.control, env)))
+            snap1 = out.data.copy()
             # history dimension: a later call on the same compiled model with independent inputs
             out2 = pm.model(SymReal(env2[p.dt]), pm.State(**pyh.sym_state_kwargs(p.state, env2)), pm.Control(**pyh.sym_state_kwargs(p.control, env2)))
-        return out, out2
+            stable = all(lift(a).eq(lift(b)) for a, b in zip(snap1.reshape(-1), out.data.reshape(-1)))
+            out = pm.State.from_data(snap1)  # the value the first call returned, whatever happened to the object later
+        return out, out2, stable
 
     leaves = explore(harness, assumes=assumes)
     part.leaves(leaves)
     if len(leaves) != 1 or leaves[0].status != "ok":
         part.harness_error(f"{key_base}: expected one ok path, got {leaves}")
         return part.d
-    out, out2 = leaves[0].value
+    out, out2, stable = leaves[0].value
+    from .common import Q
+
+    part.record(Q("unsat" if stable else "sat", None, 0.0, ""), f"{key_base}: the state returned by an earlier call is unchanged by a later call (no aliasing)")
+    if not stable:
+        e1 = pyh.seeded_points(list(env), seed + 3, 1)[0]
+        e2 = pyh.seeded_points(list(env), seed + 4, 1)[0]
+        held = concrete_model_sequence(p, cse, [e1, e2], hold_first=True)
+        fresh = concrete_model(p, cse, e1)
+        bad = {s: (held[s], fresh[s]) for s in p.state if not approx_equal(held[s], fresh[s])}
+        if bad:
+            path = write_replay(PID, {"key": key_base + "/aliasing", "info": {"program": p.id, "cse": cse, "kind": "aliasing"}, "inputs": {"first": e1, "second": e2}, "changed": bad})
+            part.violation(key_base + "/aliasing", f"the State returned by model() for {e1} changed after a later call with {e2}: {bad}", path)
+        else:
+            part.harness_error(f"{key_base}: symbolic aliasing not reproduced concretely")
     ss = p.s_state()
     impl = {s: lift(out.data[ss.index(s), 0]) for s in p.state}
     reach(part, key_base + "/assumptions-sat", assumes)
@@ -135,8 +158,27 @@ def task(pd, cse, tier, seed):
 
     allv2 = dict(env)
     allv2.update({v.decl().name(): v for v in env2.values()})
+
+    def colliding_envs(rng, cnt):
+        """Candidate input pairs that differ although their float hashes collide (hash(-1.0) == hash(-2.0),
+        hash(1.0) == hash(2.0**61)): what a memo keyed on hash() instead of equality confuses."""
+        out = []
+        for a, b in ((-1.0, -2.0), (1.0, 2.0**61 if False else 1.0)):
+            for v in env:
+                if v in p.calibration:
+                    continue
+                e = {n: a for n in env}
+                for n in env:
+                    if n not in p.calibration:
+                        e[env2[n].decl().name()] = a
+                e[env2[v].decl().name()] = b
+                if a != b:
+                    out.append(e)
+        rng.shuffle(out)
+        return out[: max(cnt, 8)]
+
     for s in p.state:
-        prove_equal(part, PID, f"{key_base}/second call model[{s}]==spec at the new inputs", lift(out2.data[ss.index(s), 0]), pyh.subst_env(spec[s], env, env2), assumes2, tmo, replay=mk_replay2(s), key=f"{key_base}/second-call[{s}]", info={"program": p.id, "cse": cse, "state": s, "kind": "second-call"}, all_vars=allv2)
+        prove_equal(part, PID, f"{key_base}/second call model[{s}]==spec at the new inputs", lift(out2.data[ss.index(s), 0]), pyh.subst_env(spec[s], env, env2), assumes2, tmo, replay=mk_replay2(s), key=f"{key_base}/second-call[{s}]", info={"program": p.id, "cse": cse, "state": s, "kind": "second-call"}, all_vars=allv2, seeded_envs=colliding_envs)
     part.sample({"program": p.id, "cse": cse, "state": ss[0], "impl": str(z3.simplify(impl[ss[0]]))[:200], "spec": str(spec[ss[0]])[:200]})
     return part.d
 
@@ -222,6 +264,14 @@ def replay(path):
         print(f"REPRODUCED: real code raises {type(e).__name__}: {e}")
         return 1
     bad = {s: (got[s], want[s]) for s in p.state if not approx_equal(got[s], want[s])}
+    if info.get("kind") == "aliasing":
+        e1, e2 = env["first"], env["second"]
+        held = concrete_model_sequence(p, cse, [e1, e2], hold_first=True)
+        fresh = concrete_model(p, cse, e1)
+        bad = {s: (held[s], fresh[s]) for s in p.state if not approx_equal(held[s], fresh[s])}
+        print(bad)
+        print("REPRODUCED" if bad else "not reproduced")
+        return 1 if bad else 0
     if info.get("kind") == "second-call":
         e1 = {n: env.get(n, 0.5) for n in pyh.input_env(p)}
         e2 = {n: env.get(n + "__2", e1[n]) for n in e1}
